@@ -297,6 +297,17 @@ def discharge(Y, s, layer):
             if g:
                 return True, "index bounded by the dominating test %s" % g[:60]
             return False, "index %s vs length %s" % (sshow(v.terms.operand(s.ops[1], 8), 5), sshow(v.terms.operand(s.ops[0], 8), 4))
+        if ak in ("DivisionByZero", "RemainderByZero"):
+            ct = simp_deep(v.terms.operand(s.fn.blocks[s.bb]["t"]["cond"], 6))
+            if ct[0] == "bin" and ct[1] == "Eq":
+                d, z = simp(ct[2]), simp(ct[3])
+                if d[0] == "const" and z[0] == "const" and isinstance(d[1], int) and d[1] != z[1]:
+                    return True, "constant non-zero divisor %d" % d[1]
+            return False, "%s: divisor %s" % (ak, sshow(ct, 5))
+        if ak in ("Overflow(Div)", "Overflow(Rem)"):
+            if cs[1] is not None and cs[1] != -1:
+                return True, "constant divisor %d != -1" % cs[1]
+            return False, "%s on %s" % (ak, [sshow(v.terms.operand(o, 8), 5) for o in s.ops])
         if ak.startswith("Overflow(Sh"):
             if cs[1] is not None:
                 return True, "constant shift amount %d" % cs[1]
@@ -386,6 +397,74 @@ def _shift_bound_ok(fn, v, s):
     return best is not None and best < w
 
 
+NARROW = ("u8", "u16", "u32")
+
+
+def _narrow_operand(Y, fn, op, depth=3, visiting=frozenset()):
+    """is the integer operand provably < 2^32: a constant, a zero-extending cast from u8/u16/u32, or a parameter that every
+    caller fills that way."""
+    c = const_of(op)
+    if c is not None:
+        return 0 <= c < (1 << 32), "constant %s" % c
+    l = op.get("c", op.get("m")) if isinstance(op, dict) else None
+    for _ in range(6):
+        if not isinstance(l, int):
+            return False, "not a plain local"
+        if 1 <= l <= fn.argc():
+            if depth <= 0:
+                return False, "parameter chain too deep"
+            return _narrow_param(Y, fn, l - 1, depth - 1, visiting)
+        ds = fn.defs().get(l, [])
+        if len(ds) != 1 or ds[0][0] != "stmt":
+            return False, "local _%d has %d definitions" % (l, len(ds))
+        rv = ds[0][3]["rv"]
+        if "cast" in rv and rv.get("kind") == "IntToInt" and rv.get("from") in NARROW:
+            return True, "zero-extended from %s" % rv["from"]
+        if "use" in rv and isinstance(rv["use"], dict):
+            c = const_of(rv["use"])
+            if c is not None:
+                return 0 <= c < (1 << 32), "constant %s" % c
+            l = rv["use"].get("c", rv["use"].get("m"))
+            continue
+        return False, "defined by %s" % list(rv)[0]
+    return False, "copy chain too long"
+
+
+def _narrow_param(Y, fn, idx, depth=3, visiting=frozenset()):
+    """every call of `fn` (by resolved or declared name; for trait methods also calls of the trait method with that name)
+    passes a narrow value at position idx."""
+    name = fn.path
+    if (name, idx) in visiting:
+        return True, "forwarded parameter (cycle: decided by the other call sites)"
+    visiting = visiting | {(name, idx)}
+    meth = name.rsplit("::", 1)[-1]
+    pats = [name]
+    m = re.match(r"^<(.+) as (.+)>::(\w+)$", name)
+    if m:
+        pats.append(m.group(2) + "::" + m.group(3))
+    n = 0
+    for root, css in callers_of(Y, *pats).items():
+        for cs in css:
+            if idx >= len(cs.args):
+                return False, "call %s passes fewer arguments" % cs
+            ok, why = _narrow_operand(Y, cs.fn, cs.args[idx], depth, visiting)
+            if not ok:
+                return False, "%s passes a value that is not bounded by u32::MAX (%s) at %s" % (cs.fn.path, why, cs.loc())
+            n += 1
+    if n == 0:
+        return False, "no call sites of %s found" % name
+    return True, "%d call site(s) of %s pass a constant or a value zero-extended from <= 32 bits" % (n, meth)
+
+
+def check_premise(Y, fn, prem):
+    kind = prem[0]
+    if kind == "narrow_param":
+        ok, why = _narrow_param(Y, fn, prem[1])
+        # a wrapper impl that forwards its own parameter (DecoderV1/V2::read_exact -> Cursor::read_exact) is covered by recursion
+        return ok, why
+    return False, "unknown premise kind %s" % kind
+
+
 def load_table():
     if os.path.exists(DISCHARGE_TABLE):
         return json.load(open(DISCHARGE_TABLE))["discharged"]
@@ -451,7 +530,13 @@ def check(ctx, R):
                     continue
                 why += " — its condition depends on a parameter that parse-layer callers fill from the wire: %s" % fed[:2]
         if key in table:
-            R.ob(rid, s.fn, s.site, True, "frozen discharge: " + table[key], s.loc())
+            ent = table[key]
+            if isinstance(ent, dict):
+                pok, pwhy = check_premise(Y, s.fn, ent["premise"])
+                R.ob(rid, s.fn, s.site, pok, ("frozen discharge: %s [premise checked: %s]" % (ent["why"], pwhy)) if pok else
+                     "[%s] %s — the bound argument `%s` rests on a premise that no longer holds: %s" % (lay, why, ent["why"], pwhy), s.loc())
+            else:
+                R.ob(rid, s.fn, s.site, True, "frozen discharge: " + ent, s.loc())
             continue
         R.ob(rid, s.fn, s.site, False, "[%s] %s" % (lay, why), s.loc())
     # recursion
@@ -468,7 +553,7 @@ def check(ctx, R):
         name = sorted(comp)[0]
         key = "C10.rec|%s|cycle(%d)" % (name, len(comp))
         if key in table:
-            R.ob("C10.rec", name, "cycle(%d)" % len(comp), True, "frozen discharge: " + table[key])
+            R.ob("C10.rec", name, "cycle(%d)" % len(comp), True, "frozen discharge: " + str(table[key]))
         else:
             R.ob("C10.rec", name, "cycle(%d)" % len(comp), False, "call-graph cycle in the cone: %s" % sorted(comp)[:6])
     R.floor("C10.rec", "cycles examined", len(sccs), 1)
